@@ -605,6 +605,45 @@ def r8(F, R):
 
 
 
+def r10(F, R):
+    R.rule("C11-R10", "no draw beyond the budget, the first one included: in the chain worker the draw call is not reachable from the start of the worker without "
+                      "passing a test of the number of draws to make (a comparison involving hint_num_tune() + hint_num_draws(), or the `next()` of a range built "
+                      "from it). A loop that compares the counter with the total only after a draw makes one draw too many when the total is 0 - and then never "
+                      "stops, because the counter has already passed the total")
+    w = C10.worker_body(F)
+    if w is None:
+        R.missing("C11-R10", "worker closure")
+        return
+    D = C12.draw_block(w)
+    if D is None:
+        R.missing("C11-R10", "draw call in the worker")
+        return
+
+    def mentions_total(v):
+        s_ = vt_str(v)
+        return "hint_num_tune" in s_ and "hint_num_draws" in s_
+    tests = set()
+    for bi, blk in enumerate(w.blocks):
+        t = blk["term"]
+        if t["k"] == "switch" and t.get("discr_ty") == "bool":
+            v = w.value(t["discr"])
+            if v[0] == "un" and v[1] == "Not":
+                v = v[2]
+            if v[0] == "bin" and v[1] in ("Eq", "Ne", "Lt", "Le", "Gt", "Ge") and (mentions_total(v[2]) or mentions_total(v[3])):
+                tests.add(bi)
+        if t["k"] == "call" and strip_generics(t["callee"].get("path", "")).endswith("Iterator::next") and t["args"] and mentions_total(w.value(t["args"][0])):
+            tests.add(bi)
+    site = "%s @%s" % (w.path, loc(w.blocks[D]["term"]["span"]))
+    if not tests:
+        R.bad("C11-R10", "worker:budget-test", site, "no comparison with hint_num_tune() + hint_num_draws() in the worker")
+        return
+    if D in w.reach_from(0, avoid=sorted(tests), succ_filter=lambda a_, b_: True):
+        R.bad("C11-R10", "worker:first-draw-within-budget", site, "the first draw is reachable without any test of the number of draws to make: with "
+              "num_tune + num_draws = 0 the chain draws, the counter passes the total, and the run never finishes")
+    else:
+        R.ok("C11-R10", "worker:first-draw-within-budget", site, "every path to the draw passes a test of the draw budget (%d test sites)" % len(tests))
+
+
 def r9(F, R):
     R.rule("C11-R9", "the controller only waits where it can be woken: inside its command loop (helpers and closures included) the only blocking operations are the "
                      "bounded recv_timeout on the command channel, the rendezvous send of a response and mutex locks - no unbounded Receiver::recv, join, "
@@ -651,6 +690,7 @@ def run(F, R, config=None):
         r5(F, R)
         r8(F, R)
         r9(F, R)
+        r10(F, R)
         # a Resume that can be lost leaves a chain paused for ever: the run never terminates (C12-R6 analysis of the command channel)
         from . import c12
         K.borrow_rule(R, lambda sub: c12.r6(F, sub), "C11-R7", "no control command for a live chain can be dropped: unbounded mpsc channel, `send` (C12-R6 analysis); a lost Resume "
@@ -662,6 +702,6 @@ def run(F, R, config=None):
     R.assume("user callbacks (ProgressCallback) and Model/Math implementations return")
 
 
-FEATURE_RULES = {"C11-R3": "parallel", "C11-R4": "parallel", "C11-R5": "parallel", "C11-R7": "parallel", "C11-R8": "parallel", "C11-R9": "parallel"}
+FEATURE_RULES = {"C11-R3": "parallel", "C11-R4": "parallel", "C11-R5": "parallel", "C11-R7": "parallel", "C11-R8": "parallel", "C11-R9": "parallel", "C11-R10": "parallel"}
 CONFIGS = ["all", "default", "zarr", "ndarray"]
 SELFTEST = True
